@@ -300,6 +300,23 @@ def case_pairing_api(p):
         issue("get:issued-under-write-back-pressure", pr.get_characteristics([(1, 9), (1, 10)]), [("GET", read_target([(1, 9), (1, 10)]), None, None, None)], backpressure=True)
         issue("put-3-blocks:issued-under-write-back-pressure", pr.put_characteristics([(1, 9, "x" * 2500)]),
               [("PUT", "/characteristics", {"characteristics": [{"aid": 1, "iid": 9, "value": "x" * 2500}]}, "application/hap+json", None)], backpressure=True)
+        # a sloppy caller first (ids that are numerically equal but of another type: floats from a config file, a bool) - only ITS request may
+        # look odd; the ordinary reads that follow are rendered as ever
+        hx = HOSTS.index(host) if host in HOSTS else 7
+        for j, (mk, clean) in enumerate((
+            (lambda a, i: [(float(a), float(i))], lambda a, i: [(a, i)]),
+            (lambda a, i: [(a, float(i)), (float(a), i + 1)], lambda a, i: [(a, i), (a, i + 1)]),
+            (lambda a, i: [(True, i)], lambda a, i: [(1, i)]),
+        )):
+            # (ids nobody in this process has read before: whatever the library remembers about an id, it learns it from the sloppy call)
+            a, i = 3 + hx, 70 + 10 * j
+            try:
+                rig.run(pr.get_characteristics(mk(a, i)))
+            except Exception:  # noqa: BLE001
+                if not rig.pairing.is_connected:
+                    rig.connect()
+            ids_ = clean(a, i)
+            issue(f"get_characteristics:after-a-sloppy-call-{j}", pr.get_characteristics(list(ids_)), [("GET", read_target(ids_), None, None, None)])
         issue("get_characteristics-dup", pr.get_characteristics([(1, 9), (1, 9), (1, 10)]), [("GET", read_target([(1, 9), (1, 10)]), None, None, None)])
         issue("get_characteristics-set", pr.get_characteristics({(2, 9), (1, 10)}), [("GET", read_target([(2, 9), (1, 10)]), None, None, None)])
         vals = [True, False, 0, 37, -5, 2.5, "text with \"quotes\" and ü", 1e3]
